@@ -6,8 +6,15 @@
 //! assume: Logger callbacks do not panic (R3)
 //! plemma: C05 call-site precondition of ChannelSigner::release_commitment_secret in get_last_revoke_and_ack: the only secret requested from the signer is that of commitment next_transaction_number + 2 (the commitment before the current one), never the current or a future one
 //! trusted: u05c: FundedChannel/ChannelContext are self skeletons with exactly the fields get_last_revoke_and_ack reads (R5); InboundHTLCState::should_hold_htlc external_body (unconstrained); BlindedMessagePath, ChannelId opaque; R14 folds the const initialiser (1 << 48) - 1
+//! trusted: assume_specification for core::cmp::max / core::cmp::min (std definitions): present in every unit so that a change that introduces them is verified instead of being rejected by the tool
 use vstd::prelude::*;
 verus! {
+use vstd::std_specs::cmp::*;
+use core::cmp;
+pub assume_specification<T: core::cmp::Ord>[core::cmp::max::<T>](a: T, b: T) -> (r: T)
+    ensures T::obeys_cmp_spec() ==> r == (if b.cmp_spec(&a) == core::cmp::Ordering::Less { a } else { b });
+pub assume_specification<T: core::cmp::Ord>[core::cmp::min::<T>](a: T, b: T) -> (r: T)
+    ensures T::obeys_cmp_spec() ==> r == (if b.cmp_spec(&a) == core::cmp::Ordering::Less { b } else { a });
 #[derive(Clone, Copy)] pub struct PublicKey(pub [u8; 33]);
 pub struct All {}
 pub struct Secp256k1<T> { pub t: T }
